@@ -11,7 +11,8 @@ static inline const std::vector<Mutation> &catalogue() {
   static const std::vector<Mutation> c = {
     {"+1", false}, {"-1", false}, {"random-residue", false}, {"0", false}, {"1", false}, {"2", false}, {"p-1", false}, {"p", false}, {"q", false},
     {"v+q", false}, {"v-q", false}, {"v+p", false}, {"neg-v", false}, {"order-k-element", false}, {"2048-bit", false}, {"24000-bit", false},
-    {"swap-with-next", true}, {"delete-line", true}, {"duplicate-line", true}, {"truncate-here", true}, {"non-digit", true}, {"empty-line", true}};
+    {"swap-with-next", true}, {"delete-line", true}, {"duplicate-line", true}, {"truncate-here", true}, {"non-digit", true}, {"empty-line", true},
+    {"v-p", false}}; // appended last so that the indices of the older entries (and with them saved replay files) stay valid
   return c;
 }
 
@@ -21,7 +22,7 @@ static inline bool mutate_value(Ctx &ctx, const std::string &m, const Z &v, cons
   else if (m == "random-residue") out = zrand_below(ctx, p > 0 ? p : Z(1000003));
   else if (m == "0") out = 0; else if (m == "1") out = 1; else if (m == "2") out = 2;
   else if (m == "p-1") out = p - 1; else if (m == "p") out = p; else if (m == "q") out = q;
-  else if (m == "v+q") out = v + q; else if (m == "v-q") out = v - q; else if (m == "v+p") out = v + p; else if (m == "neg-v") out = -v;
+  else if (m == "v+q") out = v + q; else if (m == "v-q") out = v - q; else if (m == "v+p") out = v + p; else if (m == "v-p") out = v - p; else if (m == "neg-v") out = -v;
   else if (m == "order-k-element") { // an element of Z_p^* outside the order-q subgroup: x^q for random x has order dividing k = (p-1)/q
     if (p <= 3 || q <= 1) return false; Z k = (p - 1) / q; if (k <= 1) return false;
     for (int t = 0; t < 40; t++) { Z x = zrand_below(ctx, p - 3) + 2; out = zpowm(x, q, p); if (out != 1 && zpowm(out, q, p) != 1) break; out = v; }
